@@ -100,6 +100,32 @@ Definition get_uint64 (m : cosemap) (l : Z) : res Z :=
   | None => Ok 0
   end.
 
+(* toKey (the label conversion of GetMap): integers of any kind in the 32-bit range become `int`, text stays *)
+Definition to_key (l : label) : res label :=
+  match l with
+  | LInt k z => if is_signed k then (if (MinInt32 <=? z) && (z <=? MaxInt32) then Ok (LInt KInt z) else Err)
+                else (if z <=? MaxInt32 then Ok (LInt KInt z) else Err)
+  | LStr s => Ok (LStr s)
+  end.
+Fixpoint to_keys (m : list (label * gval)) : res (list (label * gval)) :=
+  match m with
+  | [] => Ok []
+  | (l, v) :: r => match to_key l, to_keys r with
+                   | Ok l', Ok r' => Ok ((l', v) :: r')
+                   | Panic, _ | _, Panic => Panic
+                   | _, _ => Err
+                   end
+  end.
+(* CoseMap.GetMap on a decoded value (map[any]any): absent -> nil map; a map whose keys are integers or text -> the map
+   with normalised labels; anything else, including maps with keys of other types (null, booleans, floats ...: opaque
+   VOther in this universe), -> an error. (A null key made toKey panic before 931bc34.) *)
+Definition get_map (m : cosemap) (l : Z) : res (option cosemap) :=
+  match lookup m (ilabel l) with
+  | None => Ok None
+  | Some (VMap kvs) => match to_keys kvs with Ok r => Ok (Some r) | Err => Err | Panic => Panic end
+  | Some _ => Err
+  end.
+
 (* GetBytes: []byte directly, named byte slices through reflect; every other
    dynamic type makes reflect panic, which GetBytes recovers into an error *)
 Definition get_bytes (m : cosemap) (l : Z) : res bytes :=
